@@ -569,6 +569,11 @@ func (vfs *MemFS) MkdirAll(path string, perm fs.FileMode) error {
 		if !pi.Next() {
 			break
 		}
+
+		// the next directory is created in the new one, with the permissions it was just given.
+		if !dn.checkPermission(avfs.OpenWrite|avfs.OpenLookup, vfs.User()) {
+			return &fs.PathError{Op: op, Path: pi.LeftPart(), Err: vfs.err.PermDenied}
+		}
 	}
 
 	return nil
